@@ -305,7 +305,8 @@ def mutate_mrs(rng, m):
         rng.choice(rels)["label"] = ["h", rng.randrange(1, 8)]
     elif k == 3 and rels:
         ep = rng.choice(rels)
-        role = next(r for r in ("ARG9", "ARG10", "ARG11", "ARG12", "ARG13") if r not in [a[0] for a in ep["args"]])
+        used = [a[0] for a in ep["args"]]
+        role = next("ARG%d" % d for d in range(9, 9 + len(used) + 2) if "ARG%d" % d not in used)
         ep["args"].append([role, rng.choice([ep["label"], ["h", rng.randrange(0, 12)], ["x", 100], ["e", 101]])])
     elif k == 4 and len(rels) > 1:
         a, b = rng.sample(range(len(rels)), 2)
